@@ -184,6 +184,19 @@ CLAIMED['C13'] = dict(
          'length.',
     design_ref='4 (C13)')
 
+CLAIMED['C09'] = dict(
+    technique='bounded symbolic execution of the real write / update / read '
+              'of every bound class over a journalled HDF5 model, objects '
+              'with symbolic fields; behaviour (contains, log_v, sample '
+              'stream) of original and read-back object compared as terms',
+    text='For every class, option set and reachable kind of state within '
+         'the bounds the solver-explored paths show the read-back object '
+         'answers contains() identically for arbitrary points, reports the '
+         'same volume and produces the identical sample stream from a cloned '
+         'generator, and that update+read equals the live object and a full '
+         'write+read.',
+    design_ref='4 (C09)')
+
 NOT_APPLICABLE = {
     'C04': 'statement about the distribution of whole-program outputs over '
            'seed ensembles; no bounded symbolic input space decides it '
